@@ -376,6 +376,13 @@ class NP:
     def hypot(self, x, y):
         return _map(lambda p, q: (_as_scalar(p) * _as_scalar(p) + _as_scalar(q) * _as_scalar(q)).sqrt(), x, y)
 
+    def copysign(self, a, b):
+        def f(x, y):
+            x, y = _as_scalar(x), _as_scalar(y)
+            m = abs(x)
+            return -m if y < 0 else m
+        return _map(f, a, b)
+
     def sign(self, a):
         def f(v):
             v = _as_scalar(v)
